@@ -97,6 +97,21 @@ def run(ctx, H):
             q = K.set_at(p, path, copy.deepcopy(ctx.rng.choice(K.WRONG)))
             sc, d, kind = K.gen_scripts(ctx.rng)
             cases.append(E.Case(e, q, "ov", sc, d, kind, 1))
+    # long strings of mixed byte widths at a leaf and as a map key (anything that cuts a text at a byte offset)
+    for e in H.entries:
+        p = K.gen_valid(e.ty, ctx.rng)
+        pos = list(K.positions(p))
+        for sidx in ([10, 11, 12] + ctx.rng.sample(range(10), 2)):
+            q = K.set_at(p, ctx.rng.choice(pos), K.LONG_STRINGS[sidx])
+            sc, d, kind = K.gen_scripts(ctx.rng)
+            cases.append(E.Case(e, q, "ov", sc, d, kind, 1))
+        objs = [x for x in pos if isinstance(K.get_at(p, x), dict) and "m" in K.get_at(p, x)]
+        if objs:
+            x = ctx.rng.choice(objs)
+            cur = copy.deepcopy(K.get_at(p, x))
+            cur["m"].insert(ctx.rng.randint(0, len(cur["m"])), [K.LONG_STRINGS[ctx.rng.choice([10, 11, 12])], copy.deepcopy(ctx.rng.choice(K.WRONG))])
+            sc, d, kind = K.gen_scripts(ctx.rng)
+            cases.append(E.Case(e, K.set_at(p, x, cur), "ov", sc, d, kind, 1))
     # depth 128: what serde_json's parser accepts
     deep_targets = [e for e in H.entries if e.ty[0] == "json" or e.ty in (T.Vec(T.Json), T.Option(T.Json), T.Map("btree", "String", T.Json))]
     for e in deep_targets:
